@@ -64,6 +64,14 @@ def runCase (j : Json) : Except String Json := do
     | x => return x
   | "cleanup" =>
     return Json.mkObj [("ret", jstr (cleanupLastLine (← str j "ret")))]
+  | "drop_mark" =>
+    return Json.mkObj [("text", jstr (dropFinalContinuationMark (← str j "text")))]
+  | "imp_data" =>
+    -- Importance._format_tree (data block) from the cards' texts, then CellModifierInput.format_for_mcnp_input
+    let text := importanceDataText (← strs (← j.getObjVal? "cards"))
+    match wrapped (modifierDataFormat text (← version j)) with
+    | Json.obj kv => return Json.obj (kv.insert "text" (jstr text))
+    | x => return x
   | "message" => return plain (messageFormat (← strs (← j.getObjVal? "lines")) (← version j))
   | "title" => return plain (titleFormat (← str j "title") (← version j))
   | "max_line_length" =>
